@@ -14,7 +14,8 @@ fn setup(prop: &str) -> &'static Vec<String> {
         if strict {
             vec![]
         } else {
-            load_known(prop).into_iter().filter(|k| k.status == "known").map(|k| k.sig).collect()
+            // `prop` may list several properties separated by '+'
+            prop.split('+').flat_map(|p| load_known(p).into_iter().filter(|k| k.status == "known").map(|k| k.sig)).collect()
         }
     })
 }
